@@ -1245,7 +1245,9 @@ func toString(v interface{}) string {
 	case []byte:
 		return string(val)
 	case fmt.Stringer:
-		return val.String()
+		if !isNilPointer(v) {
+			return val.String()
+		}
 	}
 
 	// Anything else is printed like %v, but without memory addresses
